@@ -96,7 +96,10 @@ def make_case(seed: int, tier: str, prop: str, opts=None) -> Dict[str, Any]:
             # the caller's destination collection (its own list object, or a tuple) and a second
             # call that passes the very same object again (e.g. PVs, then loads, onto the same buses)
             "dest_iterable": rng.choice(["list", "list", "tuple"]),
-            "second_ns": rng.choice([None, None, rng.randint(0, 12)])}
+            "second_ns": rng.choice([None, None, rng.randint(0, 12)]),
+            # real mosaik entities: the destinations belong to several instances of one simulator,
+            # whose entity ids coincide (Grid-0.node_0, Grid-1.node_0, ...)
+            "entities": rng.choice([None, None, None, 2, 3])}
 
 
 def run_case(case, prop) -> Dict[str, Any]:
@@ -106,6 +109,13 @@ def run_case(case, prop) -> Dict[str, Any]:
     st = out["stats"]
     src = [Ent(f"s{i}") for i in range(case["ns"])]
     dst = [Ent(f"d{i}") for i in range(case["nd"])]
+    if case.get("entities"):
+        from mosaik.scenario import Entity
+        k_ = case["entities"]
+        src = [Entity(f"Pv-{i % k_}", f"pv_{i // k_}", "Pv", None, None) for i in range(case["ns"])]
+        dst = [Entity(f"Grid-{i % k_}", f"node_{i // k_}", "Grid", None, None) for i in range(case["nd"])]
+    # (the oracle below identifies entities by object identity, whatever equality they define)
+    dst_ids = {id(x) for x in dst}
     attrs = [tuple(a) if isinstance(a, list) else a for a in case["attrs"]]
     w = RecWorld()
     sr = ScriptedRandom(case["mode"], case["rseed"])
@@ -162,31 +172,31 @@ def run_case(case, prop) -> Dict[str, Any]:
         counts = {}
         per_src = {}
         for s, d, a, kw in w.calls:
-            per_src[s] = per_src.get(s, 0) + 1
-            counts[d] = counts.get(d, 0) + 1
+            per_src[id(s)] = per_src.get(id(s), 0) + 1
+            counts[id(d)] = counts.get(id(d), 0) + 1
             if a != tuple(attrs):
                 viols.append({"kind": "wrong_attrs_passed", "features": feats, "detail": {"case": case}})
                 break
         if case["helper"] == "many_to_one":
             if any(d is not dst[0] for _, d, _, _ in w.calls) or \
-                    [s for s, _, _, _ in w.calls] != src:
+                    [id(s) for s, _, _, _ in w.calls] != [id(x) for x in src]:
                 viols.append({"kind": "many_to_one_wrong", "features": feats, "detail": {"case": case}})
         else:
-            if any(per_src.get(s, 0) != 1 for s in src) or len(w.calls) != len(src):
+            if any(per_src.get(id(s), 0) != 1 for s in src) or len(w.calls) != len(src):
                 viols.append({"kind": "source_not_connected_exactly_once", "features": feats,
                               "detail": {"case": case, "per_source": {repr(k): v for k, v in per_src.items()}}})
-            if any(d not in dst for d in counts):
+            if any(d not in dst_ids for d in counts):
                 viols.append({"kind": "connected_outside_destination_set", "features": feats,
                               "detail": {"case": case}})
             if case["evenly"]:
-                allc = [counts.get(d, 0) for d in dst]
+                allc = [counts.get(id(d), 0) for d in dst]
                 if allc and max(allc) - min(allc) > 1:
                     viols.append({"kind": "not_even", "features": feats,
                                   "detail": {"case": case, "counts": allc}})
             elif mc is not None and counts and max(counts.values()) > mc:
                 viols.append({"kind": "max_connects_exceeded", "features": feats,
                               "detail": {"case": case, "counts": {repr(k): v for k, v in counts.items()}}})
-            if ret is None or set(ret) != set(counts):
+            if ret is None or {id(x) for x in ret} != set(counts) or len(ret) != len(counts):
                 viols.append({"kind": "returned_set_wrong", "features": feats,
                               "detail": {"case": case, "returned": repr(ret)[:200]}})
         if second is not None and case["helper"] == "randomly":
@@ -194,21 +204,21 @@ def run_case(case, prop) -> Dict[str, Any]:
             st["second_call_same_destination_object"] = 1
             counts2, per2 = {}, {}
             for s_, d_, a_, kw_ in w2.calls:
-                per2[s_] = per2.get(s_, 0) + 1
-                counts2[d_] = counts2.get(d_, 0) + 1
+                per2[id(s_)] = per2.get(id(s_), 0) + 1
+                counts2[id(d_)] = counts2.get(id(d_), 0) + 1
             f2 = dict(feats, second_call=True)
-            if any(per2.get(s_, 0) != 1 for s_ in src2) or len(w2.calls) != len(src2):
+            if any(per2.get(id(s_), 0) != 1 for s_ in src2) or len(w2.calls) != len(src2):
                 viols.append({"kind": "source_not_connected_exactly_once", "features": f2,
                               "detail": {"case": case}})
-            if any(d_ not in dst for d_ in counts2):
+            if any(d_ not in dst_ids for d_ in counts2):
                 viols.append({"kind": "connected_outside_destination_set", "features": f2, "detail": {"case": case}})
             if case["evenly"]:
-                allc = [counts2.get(d_, 0) for d_ in dst]
+                allc = [counts2.get(id(d_), 0) for d_ in dst]
                 if allc and max(allc) - min(allc) > 1:
                     viols.append({"kind": "not_even", "features": f2, "detail": {"case": case, "counts": allc}})
             elif mc is not None and counts2 and max(counts2.values()) > mc:
                 viols.append({"kind": "max_connects_exceeded", "features": f2, "detail": {"case": case}})
-            if second_ret is None or set(second_ret) != set(counts2):
+            if second_ret is None or {id(x) for x in second_ret} != set(counts2) or len(second_ret) != len(counts2):
                 viols.append({"kind": "returned_set_wrong", "features": f2,
                               "detail": {"case": case, "returned": repr(second_ret)[:200]}})
     if isinstance(exc, RecursionError):
